@@ -703,6 +703,23 @@ func vmFrameInv(vm *VM) bool {
 // specOperand16: the big-endian 2-byte operand at insts[at], insts[at+1].
 func specOperand16(insts []byte, at int) int { return int(insts[at+1]) | int(insts[at])<<8 }
 
+// specDeref: the value a local slot stands for (a captured local is boxed).
+func specDeref(o Object) Object {
+	if p, ok := o.(*ObjectPtr); ok {
+		return *p.Value
+	}
+	return o
+}
+
+// specReturnBase: where RETURN leaves its value: below the frame's base
+// pointer (frame 0 has base pointer 0 and returns into the slot above its locals).
+func specReturnBase(bp, numLocals int) int {
+	if bp == 0 {
+		return numLocals + 1
+	}
+	return bp
+}
+
 // specLoadModule: what LOADMODULE pushes: the cached module and false when the
 // cache slot is filled, otherwise the module constant and true (the compiled
 // code then initialises the module and executes STOREMODULE).
